@@ -436,8 +436,11 @@ func Check[P any](t *testing.T, gen func(*rapid.T) P, run func(P) Result) {
 }
 
 // CheckCase records a directly executed (enumerated or regression) case.
-func CheckCase[P any](t *testing.T, p P, r Result) {
-	test := t.Name()
+func CheckCase[P any](t *testing.T, p P, r Result) { CheckCaseAs(t, t.Name(), p, r) }
+
+// CheckCaseAs is CheckCase with the replay file attributed to another test
+// (one whose vfx.Check loop takes the same plan type), so that it can be replayed.
+func CheckCaseAs[P any](t *testing.T, test string, p P, r Result) {
 	Record(test, p, r)
 	if r.Err != nil {
 		path := WriteReplay(test, p, r)
